@@ -130,6 +130,10 @@ func runERC20Reddem(ctx *action.Context, tx action.RawTx) (bool, action.Response
 	if err != nil {
 		return helpers.LogAndReturnFalse(ctx.Logger, gov.ErrGetEthOptions, erc20redeem.Tags(), err)
 	}
+	// the tracker is named after the raw transaction: it has to be exactly one well-formed transaction
+	if _, err := ethereum.DecodeTransaction(erc20redeem.ETHTxn); err != nil {
+		return false, action.Response{Log: errors.Wrap(action.ErrInvalidExtTx, err.Error()).Error()}
+	}
 	redeemParams, err := ethereum.ParseERC20RedeemParams(erc20redeem.ETHTxn, ethOptions.ERCContractABI)
 	if err != nil {
 		ctx.Logger.Error(err)
